@@ -41,7 +41,7 @@ fn parts_for(id: &str) -> Option<(&'static str, Vec<Box<dyn DynPart>>, Vec<Strin
     let none: Vec<String> = vec![];
     Some(match id {
         "C01" => ("C01", { let mut p = c01b::parts(); p.extend(c01::parts()); p }, none),
-        "C02" => ("C02", c02::parts(), none),
+        "C02" => ("C02", c02::parts_all(), none),
         "C03" => ("C03", c03::parts(), none),
         "C04" => ("C04", c04::parts(), none),
         "C05" => ("C05", c05::parts(), none),
